@@ -43,7 +43,7 @@ func raceTier(c *corr.Ctx) {
 	races := strings.Count(string(out), "WARNING: DATA RACE")
 	if races > 0 {
 		i := strings.Index(string(out), "WARNING: DATA RACE")
-		c.Violate(corr.Violation{Property: "C16", Clause: "ring state is only accessed under the mutex (no data race in any interleaving the race detector observed)",
+		report(c, corr.Violation{Property: "C16", Clause: "ring state is only accessed under the mutex (no data race in any interleaving the race detector observed)",
 			Key: "race-detected", Where: "pkg/ringbuffer, internal/asyncprocessor", Input: map[string]any{"kind": "race", "seed": c.Seed},
 			Detail: trim(string(out)[i:], 3000)})
 	} else if err != nil {
@@ -54,7 +54,7 @@ func raceTier(c *corr.Ctx) {
 	if bts, err := os.ReadFile(resf); err == nil && json.Unmarshal(bts, &res) == nil {
 		c.DistN("race-build evaluations", res.Evaluations)
 		for _, v := range res.Violations {
-			c.Violate(v)
+			report(c, v)
 		}
 		c.Note(fmt.Sprintf("race-enabled build (-race, CGO) ran %d concurrent cases, %d data races reported", res.Evaluations, races))
 	}
